@@ -116,4 +116,36 @@ def checkCow : CBook → List CObs → Option String
     | .error e => some e
     | .ok b' => checkCow b' rest
 
+/-! ### client-level operations: how the harness drives the real shard set, and what the model observes -/
+
+/-- client-level operations on the shard set (what the harness does to the real `shardedSearcher`) -/
+inductive COp
+  | replace (batch : List (Nat × Bool))
+  | begin
+  | done (i : Nat)
+  | gc (sids : List Nat)
+  deriving Repr
+
+def COp.acts : COp → List CAct
+  | .replace batch =>
+    [CAct.replaceBegin batch] ++ (if batch.isEmpty then [] else batch.map (fun _ => CAct.replaceKey) ++ [CAct.replaceStore])
+  | .begin => [.searchBegin]
+  | .done i => [.searchEnd i]
+  | .gc sids => sids.map .finalize
+
+/-- the observation the model makes of one operation -/
+def COp.obs (s s' : CState) : COp → CObs
+  | .replace batch => .replaced batch s'.ranked
+  | .begin => .began s.ranked
+  | .done i => .ended i
+  | .gc sids => .closed sids
+
+/-- run operations on the model (each as its sequence of small steps); `none` if a step is not enabled -/
+def cowObs : CState → List COp → Option (List CObs)
+  | _, [] => some []
+  | s, op :: rest =>
+    match crun s op.acts with
+    | none => none
+    | some s' => (cowObs s' rest).map (op.obs s s' :: ·)
+
 end ZoektModel.C19
